@@ -17,6 +17,9 @@ def make_cases(tier, rng):
         # the configured port range: both ends, only one of them (the other zero), or none (documented defaults)
         ports = rng.choice([[11111, 22222], [11111, 22222], [0, 9000], [5000, 0], [0, 0]])
         cases.append({"name": "e%d" % len(cases), "cfg": cfg, "host": host, "versions": vs, "legacy": rng.random() < 0.4, "ports": ports})
+        if not cfg["runner"] and len(cases) % 2 == 0:
+            # the caller's Cmd.Env is already populated with the host's values of the variables every client sets
+            cases[-1]["cmd_env"] = True
     all_on = {v: True for v in VARS}
     all_off = {v: False for v in VARS}
     for cfg in cfgs:
